@@ -88,7 +88,8 @@ fn drive(args: &[String]) {
     } else {
         pilota_build::Output::File(out.join("gen.rs"))
     };
-    let inc = include.map(|d| vec![d]).unwrap_or_default();
+    // several include directories are passed as one colon-separated argument, in priority order
+    let inc: Vec<PathBuf> = include.map(|d| d.to_string_lossy().split(':').map(PathBuf::from).collect()).unwrap_or_default();
     match source {
         "protobuf" => {
             let mut b = pilota_build::Builder::protobuf().ignore_unused(ignore_unused).split_generated_files(split);
@@ -376,6 +377,23 @@ fn print_pruned(dir: &Path) -> Vec<PathBuf> {
     entries
 }
 
+/// Shadowed includes: `include "base.thrift"` is found in neither the including file's directory nor
+/// uniquely in the include path - two include directories hold a file of that name with different
+/// content, and the first directory in the configured order must win.
+fn print_shadow(root: &Path) -> (Vec<PathBuf>, PathBuf) {
+    let (idl, third, app) = (root.join("idl"), root.join("third_party"), root.join("app"));
+    for d in [&idl, &third, &app] {
+        std::fs::create_dir_all(d).unwrap();
+    }
+    std::fs::write(idl.join("base.thrift"), "namespace rs shadow.base\nstruct Base { 1: optional string from_idl, 2: optional i64 id }\nenum Origin { IDL = 1 }\n").unwrap();
+    std::fs::write(third.join("base.thrift"), "namespace rs shadow.base\nstruct Base { 1: optional binary from_third_party, 3: optional list<i32> ids }\nenum Origin { THIRD_PARTY = 2 }\n").unwrap();
+    std::fs::write(idl.join("extra.thrift"), "include \"base.thrift\"\nnamespace rs shadow.extra\nstruct Extra { 1: optional base.Base b }\n").unwrap();
+    std::fs::write(third.join("only_third.thrift"), "namespace rs shadow.only\nstruct Only { 1: optional i8 x }\n").unwrap();
+    let main = app.join("main.thrift");
+    std::fs::write(&main, "include \"base.thrift\"\ninclude \"extra.thrift\"\ninclude \"only_third.thrift\"\nnamespace rs shadow.app\nstruct Req { 1: optional base.Base base, 2: optional extra.Extra extra, 3: optional only_third.Only only, 4: optional base.Origin origin }\nservice App { Req call(1: Req r) }\n").unwrap();
+    (vec![main], PathBuf::from(format!("{}:{}", idl.display(), third.display())))
+}
+
 /// A printed family of .proto files: several nested messages per message (two
 /// levels), nested enums, maps, oneofs, cross-file imports, shared package prefixes.
 fn print_pfamily(dir: &Path, nfiles: usize) -> Vec<PathBuf> {
@@ -509,6 +527,8 @@ fn corpora(scratch: &Path, tier_thorough: bool) -> Vec<Corpus> {
     let pruned_dir = scratch.join("pruned");
     let pruned = print_pruned(&pruned_dir);
     v.push(Corpus { name: "family_pruned".into(), source: "thrift", include: Some(pruned_dir), entries: pruned, modes: vec!["single_iu", "single_touch", "split_touch"] });
+    let (shadow_entries, shadow_inc) = print_shadow(&scratch.join("shadow"));
+    v.push(Corpus { name: "family_shadow".into(), source: "thrift", include: Some(shadow_inc), entries: shadow_entries, modes: vec!["single", "single_iu", "split"] });
     v.push(Corpus { name: "family_type_graphs".into(), source: "thrift", include: None, entries: vec![fam[n + 1].clone()], modes: vec!["single", "single_iu", "workspace"] });
     v.push(Corpus { name: "family_features".into(), source: "thrift", include: Some(scratch.join("family")), entries: vec![fam[n + 2].clone()], modes: vec!["single", "split", "workspace", "single_iu", "single_nocase", "single_serde"] });
     v
@@ -1168,7 +1188,12 @@ fn replay(args: &[String]) -> i32 {
     let run = &v["run"];
     let entries: Vec<PathBuf> = v["entries"].as_array().cloned().unwrap_or_default().iter().filter_map(|e| e.as_str().map(PathBuf::from)).collect();
     // the printed family lives in scratch space: print it again
-    if run["corpus"].as_str() == Some("family_pruned") {
+    if run["corpus"].as_str() == Some("family_shadow") {
+        // entries[0] = <root>/app/main.thrift
+        if let Some(root) = entries.first().and_then(|p| p.parent()).and_then(|p| p.parent()) {
+            print_shadow(root);
+        }
+    } else if run["corpus"].as_str() == Some("family_pruned") {
         if let Some(first) = entries.first() {
             if let Some(dir) = first.parent() {
                 print_pruned(dir);
